@@ -3,7 +3,7 @@
    BV.Configure.setup_txdata / pushonly_violation (Instance::setup_environment), BV.Session (StepScript(InterpreterEnv&)).
    The hash functions are parameters of the statements (any functions): the theorems are about which hashes are compared with which
    committed bytes, and the correspondence runs them with the Gallina SHA-256 / RIPEMD-160 of BV.Hashes. *)
-From BV Require Import Base Script Interp Session Tx TxCli Sighash Configure ConfigureProofs.
+From BV Require Import Base Script Interp Session Tx TxCli Sighash Configure ConfigureProofs VerifySpec VerifyProofs.
 From BV.Gen Require Import Consts Sites.
 Local Open Scope Z_scope.
 
@@ -94,6 +94,26 @@ Theorem C03_v1_setup : forall sha256 program w amount s, configure_v1 sha256 pro
                 ed_weight_init (ss_ed s) = true /\ ed_weight_left (ss_ed s) = witness_size w + VALIDATION_WEIGHT_OFFSET)).
 Proof. exact configure_v1_spec. Qed.
 
+(* --- THE WHOLE SESSION of a legacy input (script-only, scriptSig + scriptPubKey, pay-to-script-hash) IS SCRIPT VALIDATION.
+   [verify_ref] (VerifySpec.v) is Bitcoin's VerifyScript for a non-witness input written as a sequence of EvalScript calls - scriptSig,
+   scriptPubKey, and for P2SH the redeem script taken from the stack the scriptSig left - each call with an empty alt stack, a zero operation
+   count and the code hash at its start, each required to end with a balanced IF/ENDIF nesting, the scriptPubKey limited to 10,000 bytes, the
+   P2SH scriptPubKey required to leave a true value. The theorem: running the debugger session to its end (continue, with enough fuel for
+   one step per operation and per switch) ends exactly as that verdict says - same final environment, success / script error / exception.
+   (Setting this theorem up exposed three defects repaired in /repo: c520f0c conditional across scripts, 3943ee3 alt stack across scripts,
+   466d78a scriptPubKey size.) *)
+Theorem C03_legacy_session_is_script_validation : forall low_s tap_tweak_ok sha256 c v0 f,
+  i_tce v0 = None -> i_p2sh v0 = false -> i_done v0 = false -> i_pc v0 = e_script (i_e v0) -> enough low_s c f v0 ->
+  ended (Session.dbg_continue low_s tap_tweak_ok sha256 f c v0) (verify_ref low_s c (i_e v0) (i_succ v0)).
+Proof. exact session_is_validation. Qed.
+
+(* non-vacuity: the start state of every session built by setup_environment for a scriptSig that is not itself P2SH-shaped meets the premises *)
+Example C03_session_premises : forall c script stack succ ed, script <> [] ->
+  i_p2sh (setup_env c script stack succ ed None) = false ->
+  let v0 := setup_env c script stack succ ed None in
+  i_tce v0 = None /\ i_done v0 = false /\ i_pc v0 = e_script (i_e v0).
+Proof. intros c script stack succ ed Hne Hp v0. repeat split. cbn. destruct script; [contradiction|reflexivity]. Qed.
+
 (* the comparisons GENERATED from configure_tx_txin: control blocks of 33 + 32k bytes are legal for every k = 0..128, the bounds included *)
 Theorem C03_control_block_size_bounds : forall n,
   (cmp_eval site_control_min n TAPROOT_CONTROL_BASE_SIZE || cmp_eval site_control_max n TAPROOT_CONTROL_MAX_SIZE) = negb ((33 <=? n) && (n <=? 33 + 32 * 128)).
@@ -110,6 +130,7 @@ Proof.
 Qed.
 
 Print Assumptions C03_selection_sound.
+Print Assumptions C03_legacy_session_is_script_validation.
 Print Assumptions C03_control_block_size_bounds.
 Print Assumptions C03_wrong_selection_refused.
 Print Assumptions C03_selection_out_of_range_refused.
